@@ -372,7 +372,8 @@ class StateVector(NDArrayOperatorsMixin):
             are equal up to global phase and 1 means the two states are
             very unsimilar or far apart.
         """
-        other = StateVector(other)
+        if not isinstance(other, StateVector):
+            other = StateVector(other, self.radixes)
         dist = 1 - np.abs(np.conj(self) @ other) ** 2
         return typing.cast(float, dist if dist > 0.0 else 0.0)
 
